@@ -698,6 +698,11 @@ class InterpStmts:
                 s.pc.append(z3.ForAll([r], z3.Implies(cond, same)))
         if fields:
             s.pc.extend(self.all_heap_typing(s))
+        seen = []
+        for cls, fld, tgt in mods:
+            if cls in ("Graph", "DiGraph") and tgt is not None and not any(tgt.eq(t) for t in seen):
+                seen.append(tgt)
+                s.pc.extend(self.nx_graph_wf(s, self.SV(OBJ(cls), tgt)))   # A-nx-graph invariant survives any update
         return s
 
     def all_heap_typing(self, st):
@@ -756,7 +761,8 @@ class InterpStmts:
         if spec.mode == "set":
             sb = sh.assume(z3.Select(spec.mem, x), z3.Not(z3.Select(done.tree, x)))
             elem = spec.elem(x, sb)
-            done_next = SV(SET(kk), z3.Store(done.tree, x, TRUE))
+            mark = getattr(spec, "mark", None)
+            done_next = SV(SET(kk), mark(done.tree, x) if mark else z3.Store(done.tree, x, TRUE))
         else:
             sb = sh.assume(done.tree < spec.length)
             elem = spec.elt(done.tree)
@@ -768,14 +774,17 @@ class InterpStmts:
                     if tag in ("next", "continue"):
                         if ghost_step:
                             gouts = [o for o in self.exec_block(ghost_step, s2)]
-                            if len(gouts) != 1 or gouts[0][0] != "next":
-                                raise Unsupported("ghost_step must be straight-line code")
-                            s2 = gouts[0][1]
-                        s2c = s2.copy()
-                        s2c.entry = st
-                        for i, inv in enumerate(invs):
-                            g = self.eval_spec(inv, s2c, {"done": done_next, **self.loop_ghost(spec)})
-                            self.emit(s2, "inv-step", "%s[%d]" % (label, i), g)
+                            if any(o[0] != "next" for o in gouts):
+                                raise Unsupported("ghost_step must not raise/return")
+                            s2list = [o[1] for o in gouts]
+                        else:
+                            s2list = [s2]
+                        for s2 in s2list:
+                            s2c = s2.copy()
+                            s2c.entry = st
+                            for i, inv in enumerate(invs):
+                                g = self.eval_spec(inv, s2c, {"done": done_next, **self.loop_ghost(spec)})
+                                self.emit(s2, "inv-step", "%s[%d]" % (label, i), g)
                     elif tag == "break":
                         s3 = s2.copy()
                         s3.modstack = st.modstack
@@ -1288,7 +1297,7 @@ class InterpStmts:
         c = self.cset.functions.get(key) or {}
         pk = c.get("params") or {}
         for k, v in vals.items():
-            if k in pk and isinstance(pk[k], str) and isinstance(v, (list, dict, set)) and not v:
+            if k in pk and isinstance(pk[k], str) and not pk[k].startswith("const:") and isinstance(v, (list, dict, set)) and not v:
                 kd = parse_kind(pk[k])
                 v = self.SV(kd, default_tree(kd))
             s2 = self.bind(s2, k, v)
@@ -1373,7 +1382,7 @@ class InterpStmts:
         # param coercion to declared kinds
         env = {}
         for name, v in vals.items():
-            if name in pk and isinstance(pk[name], str):
+            if name in pk and isinstance(pk[name], str) and not pk[name].startswith("const:"):
                 kd = parse_kind(pk[name])
                 if isinstance(v, SV) or v is None or isinstance(v, (bool, int, float, str, tuple)) or \
                         (isinstance(v, (list, dict, set)) and not v):
@@ -1422,6 +1431,8 @@ class InterpStmts:
             if kd.tag == "obj" or (kd.tag == "opt" and kd.args[0].tag == "obj"):
                 r = result.tree if kd.tag == "obj" else result.tree[1]
                 s2.pc.append(z3.And(r >= 0, r < s2.nref))
+            if kd.tag == "obj" and kd.extra in ("Graph", "DiGraph"):
+                s2.pc.extend(self.nx_graph_wf(s2, result))
         # 5. mutated container params
         env_post = dict(env)
         for name in (c.get("mutates") or []):
